@@ -305,18 +305,19 @@ def expansion_scenario(layout, kinds, values, widths, repeat=1):
                     note="layout %s shape %s x%d" % (layout.name, "".join(kinds), repeat))
 
 
-@obligation("C05/expansion-3col", profiles=("dev",),
-            desc="get_row sequence for one source row of three columns (two inputs, one expected), every combination "
-                 "of Number/X/Z/C kinds and all values/widths: rows, order (leftmost X fastest, 0 before 1), clock "
-                 "triples 0-1-0 with only the third checked, expected X on unchecked rows, X/Z never expanded in "
-                 "expected columns; both with header order equal to and different from signal order")
-def expansion_3col(O):
-    for lay in LAYOUTS_QUICK:
-        run_layout(O, lay, 13)
+DESC = ("get_row sequence for one source row, every combination of Number/X/Z/C entry kinds and all values/widths: rows, "
+        "order (leftmost X fastest, 0 before 1), clock triples 0-1-0 with only the third checked, expected X on unchecked "
+        "rows, X/Z never expanded in expected columns; layout: ")
 
 
-@obligation("C05/expansion-more-layouts", profiles=("dev",), tier="thorough",
-            desc="the same for further layouts: expected column first, four columns, three input columns (up to 24 rows)")
-def expansion_more(O):
-    for lay in LAYOUTS_THOROUGH:
-        run_layout(O, lay, 25)
+def _register(lay, K, tier):
+    @obligation("C05/expansion[%s]" % lay.name, profiles=("dev",), tier=tier, desc=DESC + lay.name)
+    def _ob(O, lay=lay, K=K):
+        run_layout(O, lay, K)
+    return _ob
+
+
+for _lay in LAYOUTS_QUICK:
+    _register(_lay, 13, "quick")
+for _lay in LAYOUTS_THOROUGH:
+    _register(_lay, 25, "thorough")
